@@ -12,8 +12,11 @@
 //! top_k / doc_limit do not truncate) or a subset with the predicted size (stream `trunc`).
 //!
 //! Property oracle (independent of the model, from the property text): a hit with
-//! id > as_of_frame or timestamp > as_of_ts; in the non-truncating regime a hit of the
-//! filtered request that the same request without as_of_* does not return.
+//! id > as_of_frame or timestamp > as_of_ts (no known class: always a VIOLATION); in the
+//! non-truncating regime a hit of the filtered request that the same request without
+//! as_of_* does not return (known class F-C11-2 `sketch-miss-surfaced-by-asof`: the as-of
+//! request dropped the sketch pre-filter in its empty-intersection branch and the added hit
+//! is a frame the sketch rejects; anything else is a VIOLATION).
 use crate::term::*;
 use memvid_core::types::{AclEnforcementMode, AskMode, AskRequest, FrameStatus, SearchRequest, TimelineQuery, VecEmbedder};
 use memvid_core::{Memvid, PutOptions, SketchSearchOptions};
@@ -229,6 +232,16 @@ fn probe() {
             eprintln!("doc {} word {} cands {:?} U {:?}", d, wd, cands, u);
         }
     }
+    let words: Vec<String> = c.docs.iter().flat_map(|d| d.text.split(' ').map(|x| x.to_string()).collect::<Vec<_>>()).collect();
+    for a in &words { for b in &words {
+        if a >= b { continue; }
+        let q = format!("{} OR {}", a, b);
+        let cands: BTreeSet<u64> = c.mem.find_sketch_candidates(&q, Some(SketchSearchOptions { hamming_threshold: 32, max_candidates: 500, min_score: 0.0 })).iter().map(|x| x.frame_id).collect();
+        if let Ok(u) = hit_ids(&mut c.mem, request(&q, 10_000, None, None, true)) {
+            let us: BTreeSet<u64> = u.0.iter().cloned().collect();
+            if let Some(x) = us.iter().find(|x| !cands.contains(x)) { if !cands.is_empty() && cands.iter().all(|c| c > x) { eprintln!("PAIR {:?} U {:?} cands {:?} miss {}", q, us, cands, x); } }
+        }
+    } }
     for q in ["date:[* TO *]", "banacok date:[* TO *]", "date:[* TO 2030-01-01]"] {
         eprintln!("query {:?}: {:?}", q, hit_ids(&mut c.mem, request(q, 10, None, None, true)));
     }
@@ -256,7 +269,7 @@ pub fn run(seed: u64, n: usize, w: &mut dyn std::io::Write) {
         let time_index: Vec<(i64, u64)> = tl.iter().map(|e| (e.timestamp, e.frame_id)).collect();
         let n_active = frames.iter().filter(|f| f.2).count();
         let has_sketches = c.mem.has_sketches();
-        let nreq = if ci == 0 { 8 } else { per };
+        let nreq = if ci == 0 { 10 } else { per };
         for qi in 0..nreq {
             let mut rq = if ci == 0 { witness_request(qi) } else { gen_query(&mut r, &c) };
             // ---- query facts (hook): tokens as `search` reduces them, field terms, date range
@@ -292,9 +305,10 @@ pub fn run(seed: u64, n: usize, w: &mut dyn std::io::Write) {
             };
             let got_set: BTreeSet<u64> = got_ids.iter().cloned().collect();
             let base_set: BTreeSet<u64> = base_ids.iter().cloned().collect();
-            // ---- class predicate of the known finding, recomputed from the inputs (not from the hits):
-            // the sketch stage applies, its candidate set is non-empty, the filter built so far
-            // (date range ∩ replay) is non-empty and disjoint from the candidates.
+            // ---- the empty-intersection branch of the sketch stage (Coq: sketch_disjoint), recomputed from the
+            // inputs (not from the hits): the sketch stage applies, its candidate set is non-empty, the filter
+            // built so far (date range ∩ replay) is non-empty and disjoint from the candidates.  The code before
+            // d76304f replaced the filter by the candidates there (fixed finding F-C11-1); now it drops the sketch.
             let asof_given = rq.as_of_frame.is_some() || rq.as_of_ts.is_some();
             let replay: BTreeSet<u64> = frames.iter().filter(|f| f.2 && rq.as_of_frame.map_or(true, |n| f.0 <= n) && rq.as_of_ts.map_or(true, |t| f.1 <= t)).map(|f| f.0).collect();
             let date_ids: Option<BTreeSet<u64>> = date_range.map(|(s, e)| time_index.iter().filter(|(ts, _)| s.map_or(true, |s| *ts >= s) && e.map_or(true, |e| *ts <= e)).map(|x| x.1).collect());
@@ -315,28 +329,31 @@ pub fn run(seed: u64, n: usize, w: &mut dyn std::io::Write) {
                 let late_id = rq.as_of_frame.map_or(false, |n| *id > n);
                 let late_ts = match (rq.as_of_ts, f) { (Some(t), Some(f)) => f.1 > t, (Some(_), None) => true, _ => false };
                 if late_id || late_ts {
-                    let cls = if fallback && asof_given { "sketch-fallback-drops-asof" } else { "asof-future-hit" };
-                    viol = Some(format!("{}: query {:?} as_of_frame {:?} as_of_ts {:?} no_sketch {} returned frame {} (timestamp {:?}); replay set {:?}, sketch candidates {:?}",
-                        cls, rq.query, rq.as_of_frame, rq.as_of_ts, rq.no_sketch, id, f.map(|f| f.1), replay.iter().take(12).collect::<Vec<_>>(), cands.iter().take(12).collect::<Vec<_>>()));
+                    // no class is known for this clause: any hit from the future is a VIOLATION
+                    viol = Some(format!("asof-future-hit: query {:?} as_of_frame {:?} as_of_ts {:?} no_sketch {} returned frame {} (timestamp {:?}); replay set {:?}, sketch candidates {:?}",
+                        rq.query, rq.as_of_frame, rq.as_of_ts, rq.no_sketch, id, f.map(|f| f.1), replay.iter().take(12).collect::<Vec<_>>(), cands.iter().take(12).collect::<Vec<_>>()));
                     break;
                 }
             }
             if viol.is_none() && nontrunc && asof_given {
                 if let Some(x) = got_set.iter().find(|x| !base_set.contains(x)) {
-                    let cls = if fallback { "sketch-fallback-drops-asof" } else { "asof-adds-hit" };
-                    viol = Some(format!("{}: query {:?} as_of_frame {:?} as_of_ts {:?} no_sketch {} top_k {} returned frame {} which the same request without as_of_* does not return ({:?})",
-                        cls, rq.query, rq.as_of_frame, rq.as_of_ts, rq.no_sketch, rq.top_k, x, base_set));
+                    // known class F-C11-2: the sketch stage of the as-of request hit its empty-intersection branch
+                    // (sketch dropped, hard filters kept) and the added hit is a frame the sketch rejects
+                    // (a false negative), which the request without as_of_* -- still sketch-filtered -- misses
+                    let cls = if fallback && !cands.contains(x) { "sketch-miss-surfaced-by-asof" } else { "asof-adds-hit" };
+                    viol = Some(format!("{}: query {:?} as_of_frame {:?} as_of_ts {:?} no_sketch {} top_k {} returned frame {} which the same request without as_of_* does not return ({:?}); sketch candidates {:?}",
+                        cls, rq.query, rq.as_of_frame, rq.as_of_ts, rq.no_sketch, rq.top_k, x, base_set, cands.iter().take(12).collect::<Vec<_>>()));
                 }
             }
             // ---- tags
             tags.push(if nontrunc { "regime:non-truncating".into() } else { "regime:truncating".into() });
             // why the monotonicity sentence is about the non-truncating regime: with truncation the filtered
             // request legitimately surfaces frames that the unfiltered one cut off (counted, never a violation)
-            if !nontrunc && asof_given && !fallback && got_set.iter().any(|x| !base_set.contains(x)) { tags.push("truncation:filtered-request-surfaces-frames-cut-off-unfiltered".into()); }
+            if !nontrunc && asof_given && got_set.iter().any(|x| !base_set.contains(x)) { tags.push("truncation:filtered-request-surfaces-frames-cut-off-unfiltered".into()); }
             tags.push(format!("topk:{}", match rq.top_k { 0 => "0", 1 => "1", 2..=4 => "2-4", _ => "100" }));
             if asof_given { tags.push(if replay.is_empty() { "replay:empty".into() } else if replay.len() == n_active { "replay:all".into() } else { "replay:proper".into() }); }
             if sketch_applies { tags.push("sketch:applies".into()); } else if has_sketches && has_text && !rq.no_sketch { tags.push("sketch:no-candidates".into()); }
-            if fallback { tags.push(if asof_given { "fallback:asof".into() } else { "fallback:date-only".into() }); }
+            if fallback { tags.push(if asof_given { "sketch-dropped:asof".into() } else { "sketch-dropped:date-only".into() }); }
             if asof_given && sketch_applies && !fallback { tags.push("sketch∩replay:non-empty".replace('∩', "&")); }
             tags.push(format!("hits:{}", match got_set.len() { 0 => "0", 1 => "1", 2..=5 => "2-5", _ => "6+" }));
             if has_field && !has_text { tags.push("filters-only".into()); }
@@ -378,8 +395,7 @@ pub fn run(seed: u64, n: usize, w: &mut dyn std::io::Write) {
     }
 }
 
-/// The witness of F-C11-1: four documents with distinct vocabularies; the query word occurs
-/// only in frame 3; as_of_frame = 1.
+/// The witness memory of F-C11-1 (fixed) and F-C11-2: six documents with distinct vocabularies.
 fn witness_corpus() -> Corpus {
     let texts = ["babacok baducok bafecok", "bagicok bahacok bajocok", "bakucok balecok bamicok", "banacok bapocok barucok", "batacok bavocok bawicok", "baxacok bazocok babecok"];
     let dir = tempfile::tempdir().expect("tempdir");
@@ -408,6 +424,9 @@ fn witness_request(i: usize) -> Req {
         4 => Req { query: "bahacok".into(), top_k: 10, as_of_frame: Some(1), as_of_ts: None, no_sketch: false, tags: t("word-before-cutoff") },
         5 => Req { query: "batacok".into(), top_k: 10, as_of_frame: Some(4), as_of_ts: Some(TS_BASE + 40), no_sketch: false, tags: t("cutoff-at-frame") },
         6 => Req { query: "batacok".into(), top_k: 10, as_of_frame: Some(3), as_of_ts: Some(TS_BASE + 40), no_sketch: false, tags: t("frame-cutoff-one-below") },
-        _ => Req { query: "batacok date:[2023-11-14T22:13:20Z TO *]".into(), top_k: 10, as_of_frame: Some(2), as_of_ts: None, no_sketch: false, tags: t("date-range-and-frame-cutoff") },
+        7 => Req { query: "batacok date:[2023-11-14T22:13:20Z TO *]".into(), top_k: 10, as_of_frame: Some(2), as_of_ts: None, no_sketch: false, tags: t("date-range-and-frame-cutoff") },
+        // F-C11-2: "babacok OR batacok" matches frames 0 and 4, its sketch candidates are {4} (frame 0 is a false negative)
+        8 => Req { query: "babacok OR batacok".into(), top_k: 10, as_of_frame: Some(0), as_of_ts: None, no_sketch: false, tags: t("sketch-miss-surfaced-sketch-on") },
+        _ => Req { query: "babacok OR batacok".into(), top_k: 10, as_of_frame: Some(0), as_of_ts: None, no_sketch: true, tags: t("sketch-miss-surfaced-no-sketch") },
     }
 }
